@@ -333,12 +333,15 @@ class JsonHistoryFlusher(threading.Thread):
         """Thread for flushing history."""
         super().__init__(*args, **kwargs)
         self.filename = filename
-        self.buffer = buffer
+        self.skip = skip
+        # Apply $HISTCONTROL here, in the thread that flushes, and not later
+        # in dump(): the skipped commands are subtracted from len(history),
+        # which must be right before the flusher thread gets to run.
+        self.buffer = self._select_cmds(buffer)
         self.queue = queue
         queue.append(self)
         self.cond = cond
         self.at_exit = at_exit
-        self.skip = skip
         if at_exit:
             with self.cond:
                 self.cond.wait_for(self.i_am_at_the_front)
@@ -359,12 +362,12 @@ class JsonHistoryFlusher(threading.Thread):
         """Tests if the flusher is at the front of the queue."""
         return self is self.queue[0]
 
-    def dump(self):
-        """Write the cached history to external storage."""
+    def _select_cmds(self, buffer):
+        """Drop the buffered commands that $HISTCONTROL excludes."""
         opts = XSH.env.get("HISTCONTROL", "")
         last_inp = None
         cmds = []
-        for cmd in self.buffer:
+        for cmd in buffer:
             if "ignoredups" in opts and cmd["inp"] == last_inp:
                 # Skipping dup cmd
                 if self.skip is not None:
@@ -378,6 +381,11 @@ class JsonHistoryFlusher(threading.Thread):
 
             cmds.append(cmd)
             last_inp = cmd["inp"]
+        return tuple(cmds)
+
+    def dump(self):
+        """Write the cached history to external storage."""
+        cmds = self.buffer
         try:
             with open(self.filename, newline="\n", encoding="utf-8") as f:
                 hist = xlj.LazyJSON(f).load()
